@@ -13,7 +13,7 @@ def struct_literal_fields(F, b, W=None):
     out = []
 
     def on_node(Wk, n, K):
-        if n.get("k") == "Struct":
+        if n.get("k") == "Struct" and range_of(F, n) is None and "ops::Range" not in (F.defpath(n) or ""):
             out.append({f["name"]: Wk.T.term(f["e"]) for f in n["fields"]})
     Walker(F, b, on_node=on_node).run()
     return out
@@ -228,7 +228,7 @@ class Inliner:
             if is_derived(b) or b.unsafe:
                 continue
             e = b.body
-            while e.get("k") == "Block" and not e["stmts"] and "expr" in e:
+            while e.get("k") == "Block" and "expr" in e and all(is_debug_only(F, st) or (st.get("k") == "If" and st["c"].get("k") == "Lit" and "cfg" in F.mac(st["c"])) for st in e["stmts"]):
                 e = e["expr"]
             if e.get("k") in ("Field", "Path", "Lit") or (e.get("k") in ("Call", "MethodCall") and all(a.get("k") in ("Path", "Field") for a in call_args(e))):
                 self.simple.setdefault(b.name, []).append((b, e))
